@@ -1140,6 +1140,16 @@ func fixedScenarios() []*scenario {
 	}
 	m.steps = []stepSpec{{label: "build-cancelled-late", cancelLate: true}}
 	out = append(out, m)
+	// side files are outputs too: the external source map / legal comments of out = src/a.js
+	// would land on the inputs src/a.js.map and src/a.js.LEGAL.txt (must be refused)
+	sf := &scenario{kind: "side-file-on-input", files: map[string]string{"/src/a.ts": "import m from './a.js.map'\nimport l from './a.js.LEGAL.txt'\nconsole.log(m, l)\n/*! legal */\n", "/src/a.js.map": "{\"user\":\"data\"}", "/src/a.js.LEGAL.txt": "user legal"},
+		desc: "entry src/a.ts imports ./a.js.map and ./a.js.LEGAL.txt (file loader) outdir=src bundle sourcemap=external legal-comments=external write=true"}
+	sf.opts = func(string) api.BuildOptions {
+		return api.BuildOptions{EntryPoints: []string{"src/a.ts"}, Outdir: "src", Bundle: true, Sourcemap: api.SourceMapExternal, LegalComments: api.LegalCommentsExternal,
+			Loader: map[string]api.Loader{".map": api.LoaderFile, ".txt": api.LoaderFile}, Write: true}
+	}
+	sf.steps = []stepSpec{{label: "build"}}
+	out = append(out, sf)
 	// G: symbolic links
 	g := &scenario{kind: "finding-G", files: map[string]string{"/src/a.js": "export let a = 1 // ORIGINAL\n"},
 		symlinks: [][2]string{{"/out", "src"}}, dirLinks: [][2]string{{"/out", "/src"}}, desc: "entry src/a.js outdir=out where out -> src (symlink)"}
@@ -1666,6 +1676,56 @@ func pathCases(r *Rng, n int, st *Stats, cf *CoqFile) {
 	}
 	cf.AddCases("outpath_cases", "path * path * path * path * path * path * path", "check_outpath", outs)
 
+	// side files (external source map, external legal comments) and outfile mode
+	hashRe := regexp.MustCompile(`[A-Z2-7]{8}`)
+	var sideItems, outfileItems []string
+	os.WriteFile(filepath.Join(root, "src/legal.js"), []byte("/*! a legal comment */\nconsole.log(1)\n"), 0o644)
+	for i := 0; i < ne/3; i++ {
+		outdir := []string{"out", "src", "out/deep"}[r.Intn(3)]
+		outbase := []string{"src", "other", "."}[r.Intn(3)]
+		t := e2eTemplates[r.Intn(len(e2eTemplates))]
+		o := api.BuildOptions{AbsWorkingDir: root, EntryPoints: []string{"src/legal.js"}, Outdir: outdir, Outbase: outbase, EntryNames: t, Sourcemap: api.SourceMapExternal, LegalComments: api.LegalCommentsExternal, LogLevel: api.LogLevelSilent, Write: false}
+		res := api.Build(o)
+		if len(res.Errors) > 0 {
+			continue
+		}
+		for _, f := range res.OutputFiles {
+			for _, suf := range []string{".map", ".LEGAL.txt"} {
+				if strings.HasSuffix(f.Path, ".js"+suf) {
+					sideItems = append(sideItems, fmt.Sprintf("(%s,%s,%s,%s,%s,%s,%s)", cpath(t), cpath(filepath.Join(root, outdir)), cpath(filepath.Join(root, outbase)), cpath(filepath.Join(root, "src/legal.js")), cpath(".js"), cpath(suf), cpath(f.Path)))
+					st.Note("path:side-file", fmt.Sprint(outdir, outbase, t, suf), true)
+					hasDotDot := false
+					for _, seg := range strings.Split(strings.ReplaceAll(t, "\\", "/"), "/") {
+						hasDotDot = hasDotDot || seg == ".."
+					}
+					if !under(filepath.Join(root, outdir), f.Path) && !hasDotDot {
+						st.Fail("output-outside-outdir", map[string]interface{}{"scenario": "none", "side_file": suf, "outdir": outdir, "outbase": outbase, "entryNames": t}, f.Path, "inside "+filepath.Join(root, outdir))
+					}
+				}
+			}
+		}
+		// outfile mode
+		of := []string{"out/x.js", "out/x.y.js", "out/sub/../z", "out/.hidden", "out/q.mjs", "src/legal.out.js"}[r.Intn(6)]
+		ot := []string{"", "", "[name]", "sub/[name]-[hash]", "[dir]/[name]"}[r.Intn(5)]
+		o2 := api.BuildOptions{AbsWorkingDir: root, EntryPoints: []string{"src/legal.js"}, Outfile: of, EntryNames: ot, Sourcemap: api.SourceMapExternal, LogLevel: api.LogLevelSilent, Write: false}
+		res2 := api.Build(o2)
+		if len(res2.Errors) > 0 || len(res2.OutputFiles) != 2 {
+			continue
+		}
+		mainP, mapP := res2.OutputFiles[1].Path, res2.OutputFiles[0].Path
+		if strings.HasSuffix(mainP, ".map") {
+			mainP, mapP = mapP, mainP
+		}
+		h := ""
+		if strings.Contains(ot, "[hash]") {
+			h = hashRe.FindString(filepath.Base(mainP))
+		}
+		outfileItems = append(outfileItems, fmt.Sprintf("(%s,%s,%s,%s,%s)", cpath(ot), cpath(filepath.Join(root, of)), cpath(h), cpath(mainP), cpath(mapP)))
+		st.Note("path:outfile", fmt.Sprint(of, ot), true)
+	}
+	cf.AddCases("sidepath_cases", "path * path * path * path * path * path * path", "check_sidepath", sideItems)
+	cf.AddCases("outfile_cases", "path * path * path * path * path", "check_outfile", outfileItems)
+
 	// file-loader assets and shared chunks
 	assets := []string{"src/data.txt", "src/sub/pic.x.png", "other/d.txt", "src/sub/style.module.css", "src/noext"}
 	for _, a := range assets {
@@ -1677,7 +1737,6 @@ func pathCases(r *Rng, n int, st *Stats, cf *CoqFile) {
 	os.WriteFile(filepath.Join(root, "src/shared.js"), []byte("console.log('shared')\n"), 0o644)
 	os.WriteFile(filepath.Join(root, "src/split.js"), []byte("import('./dyn1.js'); import('./dyn2.js')\n"), 0o644)
 	assetTemplates := []string{"", "[name]-[hash]", "[dir]/[name]", "assets/[name].[hash]", "[ext]/[name]", "[dir]/[name]-[hash]", "../up/[name]", "[hash]"}
-	hashRe := regexp.MustCompile(`[A-Z2-7]{8}`)
 	var assetItems, chunkItems []string
 	for i := 0; i < ne/2; i++ {
 		a := assets[r.Intn(len(assets))]
